@@ -107,14 +107,16 @@ def _tasks(n):
         argdiffs = (diff(E, new_idx, idx_nochange),) + ads
         req = update(E, c)
         new, w, rd, bwd = E.method(sw, "edit", k, old, req, argdiffs)
-        inr_old, _ = regions(E, idx0, n)
+        inr_old, clamp_old = regions(E, idx0, n)
         inr, clamp = regions(E, new_idx, n)
         same = idx_nochange.cls.name == "_NoChange"
         E.cover(f"switch.edit.n{n}.reached")
         E.prove(f"C05.Switch.edit.args[n{n}]", E.eq(E.method(new, "get_args"), E.call(INC + ":Diff.tree_primal", argdiffs)))
         score_change = E.I.binop("Sub", E.method(new, "get_score"), E.method(old, "get_score"))
         for j in range(n):
-            here = z3.And(inr, inr_old, new_idx.t == j)
+            # branch j is the one that runs now (clamp(new index) == j; out-of-range indices included) and, for an unchanged
+            # index, the one the old trace ran
+            here = z3.And(clamp == j, clamp_old == j) if same else (clamp == j)
             if same:
                 rq, ad = E.I.to_u(req), ads[j].t
                 ej = UVal(T.edit_tr(gs[j].t, k.t, subs[j].t, rq, ad), "Trace")
@@ -147,8 +149,8 @@ def _tasks(n):
             E.prove(f"C01.Switch.edit.in_range.wf[{j}of{n},{'same' if same else 'changed'}]", E.Implies(here, wf(E, sw, new)))
         if not same:
             # a changed index resamples the new branch; with a constraint covering nothing the weight must be 0-sum
-            E.prove(f"C08.Switch.edit.changed_index_retdiff_is_new_retval[n{n}]", E.Implies(
-                z3.And(inr, inr_old), E.eq(E.call(INC + ":Diff.tree_primal", rd), E.method(new, "get_retval"))))
+            E.prove(f"C08.Switch.edit.changed_index_retdiff_is_new_retval[n{n}]",
+                    E.eq(E.call(INC + ":Diff.tree_primal", rd), E.method(new, "get_retval")))
         E.refutable(f"switch.edit.n{n}", E.eq(w, 0.0))
     return t_sim, t_agp, t_edit
 
@@ -162,7 +164,9 @@ def _an_old_trace(E, sw, gs, idx, bargs, n):
         t = T.abstract_trace(f"old_sub{j}", g=gs[j].t)
         E.assume(T.tr_args(t.t) == bargs[j].t)
         subs.append(t)
-    retval, score = E.call(STAGING + ":tree_choose", idx, [(E.method(t, "get_retval"), E.method(t, "get_score")) for t in subs])
+    # (the real constructors select retval / score with the CLAMPED index: Switch.simulate / generate / edit)
+    retval, score = E.call(STAGING + ":tree_choose", E.method(sw, "_clamp_index", idx),
+                           [(E.method(t, "get_retval"), E.method(t, "get_score")) for t in subs])
     old = E.new(M + ":SwitchTrace", gen_fn=sw, args=(idx,) + tuple(bargs), subtraces=list(subs), retval=retval, score=score)
     return old, subs
 
@@ -174,7 +178,7 @@ for _n in (2, 3):
 OE = COMB + ".or_else"
 
 
-@task("or_else.unfold", props=["C13", "C23"], functions=[OE + ":or_else", OE + ":or_else.argument_mapping"] + FUNCS)
+@task("or_else.unfold", props=["C13", "C23", "C02"], functions=[OE + ":or_else", OE + ":or_else.argument_mapping"] + FUNCS)
 def t_or_else(E):
     """or_else(if_fn, else_fn)(flag, if_args, else_args): the if-branch iff the flag is true, for Python and traced flags"""
     z3, T = E.z3, E.I.T
@@ -191,9 +195,55 @@ def t_or_else(E):
         E.prove(f"C13.or_else.simulate.{name}", E.Implies(cond, E.And(
             E.eq(E.method(tr, "get_score"), E.method(ref, "get_score")), E.eq(E.method(tr, "get_retval"), E.method(ref, "get_retval")),
             E.eq(sw_tr.fields["subtraces"][j], ref),
-            E.I.to_u(E.method(tr, "get_choices")) == T.tr_choices(ref.t))))
+            E.I.to_u(E.method(tr, "get_choices")) == T.tr_choices(ref.t))), also=["C02"])
     c = chm(E)
     s, r = E.method(oe, "assess", c, (flag, ia, ea))
     E.prove("C13.or_else.assess.follows_the_flag", E.eq(s, SReal(z3.If(
-        flag.t, T.assess_score(gi.t, c.t, ia.t), T.assess_score(ge.t, c.t, ea.t)))))
+        flag.t, T.assess_score(gi.t, c.t, ia.t), T.assess_score(ge.t, c.t, ea.t)))), also=["C02"])
     E.refutable("or_else.unfold", E.eq(E.method(tr, "get_score"), E.method(st, "get_score")))
+
+
+MX = COMB + ".mixture"
+TFPM = "genjax._src.generative_functions.distributions.tensorflow_probability"
+
+
+@task("mix.unfold", props=["C13", "C02"], functions=[MX + ":mix", MX + ":mix.mixture_model", GF + ":GenerativeFunctionClosure.__matmul__",
+                                                     GF + ":GenerativeFunctionClosure._with_kwargs"])
+def t_mix(E):
+    """mix(g0, g1)(logits, args0, args1): a static function with two trace sites - "mixture_component": the component index
+    drawn from TFP's Categorical(logits=logits) (a NORMALISED density: log softmax(logits)[k], A10), and "component_sample":
+    switch(g0, g1) called at (index, args0, args1).  With C02's static-language invariant (score = sum of the site densities)
+    and the Switch obligations this is  score = log softmax(logits)[k] + score(g_k)."""
+    z3, I = E.z3, E.I
+    g0, g1 = G(E, "G0"), G(E, "G1")
+    sites = []
+
+    def trace(I_, addr, gen_fn, args):
+        v = E.opaque(f"site_value_{len(sites)}")
+        sites.append((addr, gen_fn, args, v))
+        return v
+    I.overrides[STATIC + ":trace"] = trace
+    I.overrides.pop(DIST + ":ExactDensity.sample", None)        # the real wrapper bodies, not the abstract density theory
+    I.overrides.pop(DIST + ":ExactDensity.logpdf", None)
+    m = E.call(MX + ":mix", g0, g1)
+    E.require("C13.mix.is_a_static_generative_function", is_obj(m, "StaticGenerativeFunction"))
+    logits, a0, a1 = E.opaque("mixture_logits", "array"), E.opaque("args0", "tuple"), E.opaque("args1", "tuple")
+    ret = I.call(m.fields["source"], [logits, a0, a1], {})
+    E.require("C13.mix.two_trace_sites", len(sites) == 2)
+    (ad0, gf0, ar0, v0), (ad1, gf1, ar1, v1) = sites
+    E.prove("C13.mix.site_addresses", ad0 == "mixture_component" and ad1 == "component_sample")
+    # the index site: whatever wrapper object it is, its log-density of a value k at the site's arguments is
+    # tfd.Categorical(logits=mixture_logits).log_prob(k), and its sampler is that distribution's sampler
+    kv = E.opaque("k", "array")
+    lp = E.method(gf0, "logpdf", kv, StarOpaque(ar0) if False else ar0[0], ar0[1]) if isinstance(ar0, tuple) and len(ar0) == 2 else None
+    cat = I.call_ext("tensorflow_probability.substrates.jax.distributions.Categorical", [], {"logits": logits})
+    want = E.ctx.fn("ext.log_prob", U, U, U)(I.to_u(cat), kv.t)
+    E.prove("C02.mix.component_index_density_is_the_normalised_categorical_log_prob",
+            lp is not None and E.z(I.to_u(lp) == want), also=["C13"])
+    E.prove("C13.mix.component_site_is_switch_over_the_components_at_the_drawn_index", E.And(
+        is_obj(gf1, "Switch"), E.eq(fld(E, gf1, "branches"), (g0, g1)), E.eq(ar1, (v0, a0, a1))))
+    E.prove("C13.mix.returns_the_component_value", ret is v1)
+    E.refutable("mix.unfold", E.z(I.to_u(lp) == E.ctx.fn("ext.log_prob", U, U, U)(I.to_u(cat), logits.t)) if lp is not None else False)
+
+
+from pyvc.values import StarOpaque  # noqa: E402
